@@ -6314,6 +6314,7 @@ static size_t ZSTD_CCtx_init_compressStream2(ZSTD_CCtx* cctx,
     }
     DEBUGLOG(4, "ZSTD_compressStream2 : transparent init stage");
     if (endOp == ZSTD_e_end) cctx->pledgedSrcSizePlusOne = inSize + 1;  /* auto-determine pledgedSrcSize */
+    cctx->cParamsChanged = 0;   /* this frame starts from the requested parameters : nothing to update yet */
 
     {   size_t const dictSize = prefixDict.dict
                 ? prefixDict.dictSize
